@@ -2,7 +2,7 @@ use crate::{
   config::processed::OverflowPolicy,
   error_handling::{InternalErrorReport, InternalErrorSource},
   model::LogEvent,
-  subscriber::actor::{ActorAction, AppenderActor},
+  subscriber::actor::{target_matches_prefix, ActorAction, AppenderActor},
 };
 use fibre::{
   error::TrySendError as FibreTrySendError, mpsc::BoundedSyncSender as FibreMpscBoundedSender,
@@ -15,6 +15,10 @@ pub(crate) struct EventProcessor {
   actors: Vec<AppenderActor>,
   error_tx: Option<FibreMpscBoundedSender<InternalErrorReport>>,
   max_level: LevelFilter,
+  /// `(name, additive)` of every configured non-root logger. A logger that
+  /// names no appender appears in no actor's rule map, but it still takes part
+  /// in deciding the most specific matching logger (additivity gate).
+  loggers: Vec<(String, bool)>,
 }
 
 impl EventProcessor {
@@ -31,7 +35,15 @@ impl EventProcessor {
       actors,
       error_tx,
       max_level,
+      loggers: Vec::new(),
     }
+  }
+
+  /// Registers the full logger tree so loggers without appenders are visible
+  /// to the additivity decision in `process_event`.
+  pub(crate) fn with_loggers(mut self, loggers: impl IntoIterator<Item = (String, bool)>) -> Self {
+    self.loggers = loggers.into_iter().filter(|(name, _)| name != "root").collect();
+    self
   }
 
   /// The most permissive level any appender can accept. Used as the global
@@ -91,6 +103,13 @@ impl EventProcessor {
     for (prefix, (_, additive)) in rules.iter().flatten() {
       if winner.map_or(true, |(wp, _)| prefix.len() > wp.len()) {
         winner = Some((*prefix, *additive));
+      }
+    }
+    for (name, additive) in &self.loggers {
+      if target_matches_prefix(metadata.target(), name)
+        && winner.map_or(true, |(wp, _)| name.len() > wp.len())
+      {
+        winner = Some((name.as_str(), *additive));
       }
     }
     let non_additive_gate: Option<&str> = match winner {
